@@ -148,6 +148,37 @@ def pair_obs(maxlen, timeout, known):
     return obs
 
 
+SPECIAL = ['true', 'TRUE', 'False', 'false', '1', '0', '12', '-1', '', 'a', '1e2', '2020-01-01', ' ']
+
+
+def special_obs(timeout):
+    """Boolean-looking / numeric-looking / date-looking texts (a concrete list, forked) against booleans, ints and each other."""
+    obs = []
+    n = len(SPECIAL)
+
+    def h_bool(i: int, b: bool) -> bool:
+        t = SPECIAL[concretize(i, 0, n - 1)]
+        return check_lib(t, b) and check_lib(b, t) and check_formula(t, b) and check_formula(b, t)
+    obs.append(Ob('c09.special-texts[vs boolean]', h_bool, pre=lambda i, b: 0 <= i < n, witness=[(0, True), (2, False), (4, True)], timeout=timeout, cost=15, family='c09.special',
+                  bounds=f'texts {SPECIAL} (forked) vs TRUE/FALSE, both operand orders, library and formula forms: every text ranks below FALSE and is never equal to a boolean',
+                  show=lambda i, b: f'{SPECIAL[i % n]!r} vs {b}'))
+
+    def h_int(i: int, k: int) -> bool:
+        t = SPECIAL[concretize(i, 0, n - 1)]
+        return check_lib(t, k) and check_lib(k, t) and check_formula(t, k) and check_formula(k, t)
+    obs.append(Ob('c09.special-texts[vs number]', h_int, pre=lambda i, k: 0 <= i < n, witness=[(4, 1), (6, 12), (8, 0)], timeout=timeout, cost=15, family='c09.special',
+                  bounds=f'texts {SPECIAL} (forked) vs any int: every number is smaller than every text (numeric-looking text is still text)',
+                  show=lambda i, k: f'{SPECIAL[i % n]!r} vs {k}'))
+
+    def h_txt(i: int, j: int) -> bool:
+        t, u = SPECIAL[concretize(i, 0, n - 1)], SPECIAL[concretize(j, 0, n - 1)]
+        return check_lib(t, u) and check_formula(t, u)
+    obs.append(Ob('c09.special-texts[vs each other]', h_txt, pre=lambda i, j: 0 <= i < n and 0 <= j < n, witness=[(0, 1), (4, 6), (8, 9)], timeout=timeout, cost=30, family='c09.special',
+                  bounds=f'all ordered pairs of the texts {SPECIAL}: case-insensitive text order',
+                  show=lambda i, j: f'{SPECIAL[i % n]!r} vs {SPECIAL[j % n]!r}'))
+    return obs
+
+
 def law_obs(maxlen, timeout):
     """Laws asserted directly on the implementation (no oracle): trichotomy, duality, derived operators, transitivity."""
     obs = []
@@ -264,6 +295,7 @@ def build(tier, seed):
     obs = pair_obs(maxlen, 600 if thorough else 200, known)
     obs += law_obs(maxlen, 600 if thorough else 240)
     obs += date_blank_obs(120)
+    obs += special_obs(300)
     for o in obs:
         if o.pre is not None:
             o.witness = [w for w in o.witness if o.pre(*w)]
